@@ -1,6 +1,7 @@
 from common import COMMON_ASSUME
 
 PROP = dict(
+    isolate=True,  # cases run in a worker process: a fatal error of the code under test becomes a "crash" event
     module="Router",
     mc=[
         dict(module="MCRouter", cfg=dict(quick="MCRouter_quick.cfg", thorough="MCRouter_thorough.cfg"),
@@ -25,6 +26,6 @@ PROP = dict(
          "parameterised record and at least one lookup matched with parameters or missed; distinct by hash of the case.",
     assumptions=COMMON_ASSUME + [
         "patterns are well-formed: ':' / '*' only at the start of a segment (or after '=' for RESTCONF keys), '*' only in the last segment, no '#'",
-        "tables contain no two patterns that differ only in placeholder names (OpenAPI forbids such equivalent templates; Build keeps the later one, which is order-dependent by construction)",
+        "patterns that differ only in placeholder names (twins) are validated against the declarative property and for order independence only (the faithful model in MCRouter does not represent which twin the build keeps)",
     ],
 )
